@@ -414,9 +414,13 @@ func (c *Ctx) preciseAliasReset(fn *ssa.Function, m *memoAnchors) (*aliasResetIn
 	return nil, why
 }
 
+// lengthOperandWhy says why the last lengthOperand call refused a size helper ("" when it did not or for another reason).
+var lengthOperandWhy string
+
 // lengthOperand: v is the length of a value node, taken by node.Length() or by a module function of the node that
 // returns node.Length() or a constant on every path (a constant stands for "no elements" / "unknown"); it returns the node.
 func lengthOperand(v ssa.Value) ssa.Value {
+	lengthOperandWhy = ""
 	v = unspill(v)
 	if ph, ok := v.(*ssa.Phi); ok {
 		// `unknown` spelled as a negative constant on the other edges
@@ -447,8 +451,29 @@ func lengthOperand(v ssa.Value) ssa.Value {
 		return nil
 	}
 	fromLength := false
+	// "no elements" (a constant that is not negative) may be answered only for a node that is neither an array nor a map:
+	// behind the false edge of IsArray() and of IsMap() of the node (seed C02/m: `!IsArray() && !IsObject()` answers 0 for
+	// every Go map, before and after a write that adds a key, so the container is never reset). A negative constant says
+	// "cannot be told" and makes the caller reset more, never less.
+	kindTestEdge := func(method string) func(b *ssa.BasicBlock, si int) bool {
+		return func(b *ssa.BasicBlock, si int) bool {
+			iff, ok := b.Instrs[len(b.Instrs)-1].(*ssa.If)
+			if !ok {
+				return false
+			}
+			kind, s, ok := condOn(iff.Cond, func(x ssa.Value) bool {
+				c, ok := x.(*ssa.Call)
+				return ok && c.Call.IsInvoke() && c.Call.Method.Name() == method && unspill(c.Call.Value) == ssa.Value(k.Params[0])
+			})
+			return ok && kind == "bool" && si == 1-s
+		}
+	}
 	for _, r := range returnsOf(k) {
-		if _, isK := constInt(r.Results[0]); isK {
+		if kv, isK := constInt(r.Results[0]); isK {
+			if kv >= 0 && !(edgesDominate(k, r, kindTestEdge("IsArray")) && edgesDominate(k, r, kindTestEdge("IsMap"))) {
+				lengthOperandWhy = fnName(k) + " answers " + fmt.Sprint(kv) + " for a node that was not tested to be neither an array nor a map (IsArray() and IsMap() both false): a container whose size is answered with a constant is never seen to grow"
+				return nil
+			}
 			continue
 		}
 		ex, ok := r.Results[0].(*ssa.Extract)
